@@ -199,18 +199,8 @@ def mxint2bitstore(f: Union[str, float]) -> BitStore:
         return BitStore('01111111')
     if f <= -128:  # -2
         return BitStore('10000000')
-    # Want to round to nearest, so move by 0.5 away from zero and round down by converting to int
-    if f >= 0.0:
-        f += 0.5
-        i = int(f)
-        # For ties-round-to-even
-        if f - i == 0.0 and i % 2:
-            i -= 1
-    else:
-        f -= 0.5
-        i = int(f)
-        if f - i == 0.0 and i % 2:
-            i += 1
+    # Round to nearest, ties to even. (Adding 0.5 and truncating is not exact: the sum is itself rounded, which turns 0.5000000000000001 into a tie.)
+    i = round(f)
     return int2bitstore(i, 8, True)
 
 
